@@ -5,6 +5,7 @@ import (
 	"crypto/sha256"
 	"fmt"
 
+	"github.com/btcsuite/btcd/btcec/v2"
 	"github.com/btcsuite/btcd/btcec/v2/schnorr"
 	"github.com/btcsuite/btcd/txscript/v2"
 )
@@ -21,10 +22,11 @@ type signer struct {
 	prog []*Tok // the script signatures are checked in
 	offs []int  // byte offset of every token of prog (+ total)
 
-	script []byte // final bytes of prog
-	ctrl   []byte
-	leaf   txscript.TapLeaf
-	annex  []byte
+	script  []byte // final bytes of prog
+	ctrl    []byte
+	leaf    txscript.TapLeaf
+	annex   []byte
+	tapPriv *btcec.PrivateKey // tweaked key of the taproot output (key element "TAP")
 
 	inScript map[*Elem][]byte // resolved signatures that are pushed by prog itself
 }
@@ -96,6 +98,11 @@ func (s *signer) legacyCode(script []byte, cs int, sig []byte) []byte {
 func (s *signer) digest(e *Elem, script []byte, sigBytes []byte) ([]byte, error) {
 	ht := txscript.SigHashType(e.B[0])
 	svc, cs := e.B[2], e.B[3]
+	if cs > len(s.prog) {
+		// made for a code separator the script does not have: valid nowhere
+		h := sha256.Sum256([]byte("no such code separator"))
+		return h[:], nil
+	}
 	tx := s.sp.tx()
 	fetcher := txscript.NewCannedPrevOutputFetcher(s.sp.pkScript, s.sp.amount)
 	switch svc {
@@ -105,7 +112,7 @@ func (s *signer) digest(e *Elem, script []byte, sigBytes []byte) ([]byte, error)
 	case 1:
 		hc := txscript.NewTxSigHashes(tx, fetcher)
 		return txscript.CalcWitnessSigHash(script[s.codeStart(cs):], hc, ht, tx, 0, s.sp.amount)
-	case 2:
+	case 2, 5:
 		hc := txscript.NewTxSigHashes(tx, fetcher)
 		leaf := txscript.NewBaseTapLeaf(script)
 		lh := leaf.TapHash()
@@ -114,7 +121,11 @@ func (s *signer) digest(e *Elem, script []byte, sigBytes []byte) ([]byte, error)
 			pos = uint32(cs - 1)
 		}
 		opts := []txscript.TaprootSigHashOption{txscript.WithBaseTapscriptVersion(pos, lh[:])}
-		if s.annex != nil {
+		if svc == 5 {
+			if s.annex == nil {
+				h := sha256.Sum256([]byte("no annex to commit to"))
+				return h[:], nil
+			}
 			opts = append(opts, txscript.WithAnnex(s.annex))
 		}
 		if e.B[0] != 0 && !validTapHashType(e.B[0]) {
@@ -129,10 +140,12 @@ func (s *signer) digest(e *Elem, script []byte, sigBytes []byte) ([]byte, error)
 			h := sha256.Sum256([]byte("undefined taproot hash type"))
 			return h[:], nil
 		}
-		if s.annex != nil {
-			return nil, fmt.Errorf("key path signature with annex is not supported by the binder")
-		}
+		// (a key path signature committing to an annex, code 4, cannot be built
+		// with the exported API: such elements are never valid)
 		return txscript.CalcTaprootSignatureHash(hc, ht, tx, 0, fetcher)
+	case 4:
+		h := sha256.Sum256([]byte("key path signature with annex is not supported by the binder"))
+		return h[:], nil
 	}
 	return nil, fmt.Errorf("unknown sigversion code %d", svc)
 }
@@ -150,7 +163,10 @@ func (s *signer) make(e *Elem, digest []byte) ([]byte, error) {
 	ht, cls := e.B[0], e.B[1]
 	var priv = s.b.w.key(e.K)
 	if e.K == "TAP" {
-		return nil, fmt.Errorf("key path signing key is provided by the spend builder")
+		if s.tapPriv == nil {
+			return nil, fmt.Errorf("signature by the taproot output key outside a taproot spend")
+		}
+		priv = s.tapPriv
 	}
 	if cls == 64 {
 		sig, err := schnorr.Sign(priv, digest)
